@@ -79,7 +79,7 @@ def run_one(sid, tier="quick"):
 def main():
     if len(sys.argv) >= 2 and sys.argv[1] == "run":
         ids = sys.argv[2:] or sorted(d for d in os.listdir(SEEDED) if os.path.exists(os.path.join(SEEDED, d, "patch.diff")))
-        out_path = os.path.join(SEEDED, "RESULTS.json")
+        out_path = os.environ.get("SEEDED_RESULTS") or os.path.join(SEEDED, "RESULTS.json")
         results = json.load(open(out_path)) if os.path.exists(out_path) else {}
         for sid in ids:
             r = run_one(sid)
